@@ -325,3 +325,27 @@ _c["level_text"] += (" Re-marshaling, attribute half (Props/C06R.lean): whenever
     "(nullable attributes only), the number printInt n for an integer literal denoting n - and that literal denotes n again -, the booleans, and the "
     "JSON string of the decoded string, of formatTime t, of the base64 of the decoded bytes (nil and empty both \"\") (C06R_int, C06R_bool, "
     "C06R_string, C06R_time, C06R_bytes, C06R_null, combined in C06R_remarshal_attr).")
+
+# The payload BYTES inside the model (session 3, work package L): Spec/JsonFull.lean (a
+# full-grammar JSON reader: white space, every escape, surrogates, invalid UTF-8 as U+FFFD,
+# Go's depth limit), Model/Decode.lean (encoding/json's struct decoding of the library's
+# skeletons: exact-then-folded member lookup, duplicates, merging maps, null, RawMessage
+# text, the errors slice with its stale elements) and the six entry points from bytes;
+# Props/C05B.lean lifts the C05 / C13 theorems from "every skeleton" to "every byte string".
+_c = PROPS["C05"]
+_c["modules"] = list(_c.get("modules", ["C05"])) + ["C05B"]
+_c["theorems"] = list(_c["theorems"]) + ["C05B_total", "C05B_invalid_json", "C05B_conforms", "C05B_type", "C05B_partial_iff",
+    "C05B_partial_fields", "C05B_ws_invariant_partial", "C05B_render_roundtrip", "C05B_render_roundtrip_partial"]
+_c["suites"] = list(_c["suites"]) + [("bytes2", 3000, 40000)]
+_c["level_text"] += (" Since session 3 the decoding of the payload bytes is modelled too (Spec/JsonFull.lean: the JSON grammar encoding/json accepts - white "
+    "space, every escape, surrogate pairs, invalid UTF-8 and lone surrogates as U+FFFD, the depth limit of 10000; Model/Decode.lean: encoding/json's decoding "
+    "into payloadSkeleton / resourceSkeleton / relationshipSkeleton / Identifier(s) / Error - member lookup exact then case-folded (the two non-ASCII runes that "
+    "fold into ASCII included), later duplicates overwriting, repeated map members merging, null, RawMessage text without the surrounding white space, the "
+    "errors slice re-using stale elements of its backing array) and the theorems are lifted to EVERY BYTE STRING: no entry point panics (C05B_total), invalid "
+    "JSON is an error everywhere (C05B_invalid_json), accepted results conform to the schema (C05B_conforms, C05B_type), partial unmarshaling accepts exactly "
+    "what full unmarshaling accepts and reports exactly the members present (C05B_partial_iff, C05B_partial_fields), leading white space is irrelevant "
+    "(C05B_ws_invariant_partial), the text rendered for a tree is read back by the full reader (C05B_render_roundtrip*). Suite `bytes2` hands the real entry "
+    "points and the model the same BYTES (no skeleton is handed over).")
+_c["level_note"] += (" Byte-level model: time.Time.UnmarshalJSON on the raw text and float64 printing of numbers decoded into `any` (meta, error source) stay "
+    "parameters (Delegated); the driver instantiates them on the strict RFC 3339 layout and on canonical integers up to 2^53 and both sides skip the rest "
+    "(3-4 % of the generated rows); the capacity sequence of the errors slice is the observed one of this Go runtime.")
